@@ -1,7 +1,7 @@
 #!/bin/bash
 # Build the four feature-set binaries of simrt into /verif/sim/bin
 set -e
-cd /verif/sim
+cd "$(dirname "$(readlink -f "$0")")"
 mkdir -p bin
 cp /repo/Cargo.lock Cargo.lock 2>/dev/null || true
 PROFILE_FLAG=${SIM_PROFILE_FLAG:-}
